@@ -120,7 +120,7 @@ func (r *Run) SetSize(set string) int64 {
 func (r *Run) Sample(class string, v any) {
 	r.mu.Lock()
 	defer r.mu.Unlock()
-	if r.sampleN[class] >= 3 || len(r.Samples) >= 24 {
+	if r.sampleN[class] >= 2 || len(r.Samples) >= 40 {
 		return
 	}
 	r.sampleN[class]++
@@ -262,7 +262,7 @@ func (r *Run) Merge(o *Run) {
 		}
 	}
 	for _, s := range o.Samples {
-		if len(r.Samples) < 12 {
+		if len(r.Samples) < 30 {
 			r.Samples = append(r.Samples, s)
 		}
 	}
